@@ -8,6 +8,48 @@ from harness import ezsplib
 from harness.ashlib import hx
 
 
+_ISO_CODE = r"""
+import importlib, json, sys, types
+root, harness_root = sys.argv[1], sys.argv[2]
+sys.path[:0] = [root, harness_root]
+from harness import ezsplib
+import bellows
+pk = types.ModuleType("bellows.ezsp"); pk.__path__ = [root + "/bellows/ezsp"]; sys.modules["bellows.ezsp"] = pk
+for v in range(4, 15):
+    p = types.ModuleType(f"bellows.ezsp.v{v}"); p.__path__ = [f"{root}/bellows/ezsp/v{v}"]; sys.modules[p.__name__] = p
+out = {}
+for v in range(4, 15):
+    m = importlib.import_module(f"bellows.ezsp.v{v}.commands")
+    # taken before any later version's module has been executed
+    out[v] = {n: [c, [(k, d) for k, _, d in ezsplib.schema_fields(tx)], [(k, d) for k, _, d in ezsplib.schema_fields(rx)]]
+              for n, (c, tx, rx) in m.COMMANDS.items()}
+print("ISO" + json.dumps(out))
+"""
+
+
+def _tup(x):
+    return tuple(_tup(y) for y in x) if isinstance(x, (list, tuple)) else x
+
+
+def isolated_tables(ctx):
+    """each version's table as its own commands.py (and the older ones it builds on) declares it: the modules are executed
+    oldest first in a fresh interpreter with the `bellows.ezsp` package stubbed out, and version N is read before the module
+    of version N+1 runs.  A table in the fully imported package that differs from this one was changed by another
+    version's module (the per-version tables share their schema objects through `{**COMMANDS_vN}`)."""
+    import json
+    import os
+    import subprocess
+    import sys
+    here = os.path.dirname(os.path.dirname(os.path.dirname(os.path.abspath(__file__))))
+    r = subprocess.run([sys.executable, "-c", _ISO_CODE, ctx.repo, here], capture_output=True, text=True, timeout=120)
+    line = next((ln for ln in r.stdout.splitlines() if ln.startswith("ISO")), None)
+    if line is None:
+        return None, (r.stderr or r.stdout)[-400:]
+    raw = json.loads(line[3:])
+    return {int(v): {n: (c, [(k, _tup(d)) for k, d in tx], [(k, _tup(d)) for k, d in rx]) for n, (c, tx, rx) in tab.items()}
+            for v, tab in raw.items()}, None
+
+
 def rx_impl(h, frame, fields):
     got = []
     h._handle_callback = lambda name, args: got.append((name, args))
@@ -298,6 +340,58 @@ def run(ctx):
                               {"kind": "scalar-type", "type": tp.__name__}, {"kind": "scalar", "type": tname, "wire": hx(wire)})
                 break
         ctx.count("scalar_types_swept")
+    # ---- version isolation: "that version's" table is what that version's module declares; executing a later version's module
+    # must not change it.  A command whose declaration read in isolation differs from the one in the imported package is
+    # exercised with values laid out as declared.
+    iso, err = isolated_tables(ctx)
+    if iso is None:
+        ctx.corr_diff("the per-version command modules could not be executed in isolation", {"stderr": err}, "error", "tables")
+    else:
+        for v in range(4, 15):
+            h = ezsplib.handler(v)
+            mod = importlib.import_module(f"bellows.ezsp.v{v}.commands")
+            full = {n: (c, [(k, _tup(d)) for k, _, d in ezsplib.schema_fields(tx)], [(k, _tup(d)) for k, _, d in ezsplib.schema_fields(rx)])
+                    for n, (c, tx, rx) in mod.COMMANDS.items()}
+            ctx.count("isolated_tables_compared")
+            for name in sorted(set(full) | set(iso[v])):
+                ctx.cov["evaluations"] += 1
+                if full.get(name) == iso[v].get(name):
+                    continue
+                found = False
+                if name not in full or name not in iso[v] or full[name][0] != iso[v][name][0]:
+                    ctx.violation(f"v{v} {name}: the version's own module declares {iso[v].get(name, ('no such command',))[0]!r} as its frame ID, the imported package has {full.get(name, ('no such command',))[0]!r}",
+                                  {"kind": "isolation-id", "command": name}, {"kind": "isolation", "version": v, "name": name})
+                    continue
+                cid, itx, irx = iso[v][name]
+                real_tx = ezsplib.schema_fields(mod.COMMANDS[name][1])
+                for mode in ("zero", "max", "rand", "rand"):
+                    seq = rng.getrandbits(8)
+                    if irx != full[name][2] and not any(ezsplib.has(d, ("inv", "cond")) for _, d in irx):
+                        parts = [ezsplib.gen(d, rng, mode, i == len(irx) - 1) for i, (_, d) in enumerate(irx)]
+                        frame = ezsplib.spec_header(v, seq, cid) + b"".join(p[1] for p in parts)
+                        want = f"{name}:[{','.join(p[0] for p in parts)}]"
+                        got = rx_impl(h, frame, [(k, None, d) for k, d in irx])
+                        if got != want:
+                            found = True
+                            ctx.violation(f"v{v} {name} rx: values laid out as the v{v} table declares them ({hx(frame)}) give {got[:160]}, declared {want[:160]} "
+                                          f"(the table of v{v} in the imported package is not the one its module declares)",
+                                          {"kind": "isolation-rx", "command": name}, {"kind": "isolation", "version": v, "name": name, "frame": hx(frame), "spec": want})
+                            break
+                    if itx != full[name][1] and len(itx) == len(real_tx) and not any(ezsplib.has(d, ("inv", "cond")) for _, d in itx):
+                        parts = [ezsplib.gen(d, rng, mode, i == len(itx) - 1) for i, (_, d) in enumerate(itx)]
+                        body = b"".join(p[1] for p in parts)
+                        h._seq = seq
+                        want = hx(ezsplib.spec_header(v, seq, cid) + body)
+                        got = tx_impl(h, name, real_tx, body, 0)
+                        if got != want:
+                            found = True
+                            ctx.violation(f"v{v} {name} tx: arguments laid out as the v{v} table declares them ({hx(body)}) are sent as {got[:160]}, declared {want[:160]} "
+                                          f"(the table of v{v} in the imported package is not the one its module declares)",
+                                          {"kind": "isolation-tx", "command": name}, {"kind": "isolation", "version": v, "name": name, "body": hx(body), "spec": want})
+                            break
+                if not found:
+                    ctx.corr_diff(f"v{v} {name}: declaration read in isolation differs from the imported package's", {"version": v, "name": name},
+                                  repr(full[name])[:300], repr(iso[v][name])[:300])
     nseq = {}
     for (v, name, body, cid, note, want_reply), (got, outcome) in zip(job_rows, call_jobs(jobs)):
         k = nseq.get(v, 0)
